@@ -86,7 +86,7 @@ META = {
         "technique": "Lean 4 proofs (escaper cleanliness and round trip, one-line theorem and whole-line parse-back by mutual induction); byte-exact differential run; logfmt tokenizer oracle and reader-model probes",
     },
     "C06": {
-        "text": "Partial proof over the encoder model in colored mode (tied byte for byte on the fidelity domain): layout and colour hygiene theorems in Props/C06; the colour helpers of hedzr/is and the markup translator are modelled from their source / bypassed on the domain (no '<' or '&'), not verified. Oracle: SGR state tracker + stripped-layout parser on every generated record.",
+        "text": "Proof over the encoder model in colored mode (tied byte for byte on the fidelity domain): layout_without_escapes - with every SGR sequence removed the payload is exactly the colour-free layout of Model/Layout (timestamp, name, [tag] of the configured width, first line padded to the minimal width, key=value in ascending key order with groups flattened, caller, rest lines indented by four blanks) - and no_color_bleeds (no colour on at any line feed or at the end, only well-formed sequences), for every record of the domain, groups at any depth; values are quoted clean. Partial in that the colour helpers of hedzr/is and the markup translator are modelled from their source / bypassed on the domain (no '<' or '&'), not verified. Oracle: SGR state tracker + stripped-layout parser on every generated record.",
         "design_ref": "DESIGN.md §7 C06",
         "note": "Trusted: Lean kernel; hedzr/is term/color helpers (ESC[<n>m, ESC[0m); the translator is the identity on the domain by the repaired fast path; widths are byte counts.",
         "technique": "Lean 4 proofs on the colored encoder model; byte-exact differential run; SGR tracker oracle",
